@@ -461,7 +461,9 @@ func judge(sub string, c progCase, classes ...string) string {
 	} else {
 		rec.Class(pre + "code/no-callrec")
 	}
-	rec.Sample(c)
+	if sub != "forms" {
+		rec.Sample(c) // the fixed forms are listed in the source; the samples show generated programs
+	}
 	return msg
 }
 
@@ -617,6 +619,17 @@ var streamForms = []form{
 	{prog: "def w($n): def _w: . as $x | if $x < $n then $x, ($x + 1 | _w) else empty end; _w; 0 | w(1000000000)"},
 	{prog: "def rp(f): def _r: f, _r; _r; rp(1, 2)"},
 	{prog: "def rc(f): def r: ., (f | r); r; 0 | rc(. + 1)"},
+	// the same loops with a backtracking point or a caller frame below them
+	{prog: "1, (def f: ., (. + 1 | f); 0 | f)"},
+	{prog: "(def f: ., (. + 1 | f); 0 | f), 1"},
+	{prog: "[limit(3; repeat(1))], (def f: . as $x | $x, ($x + 1 | f); 0 | f)"},
+	{prog: "first(range(2)) as $q | def f: ., (. + 1 | f); 0 | f"},
+	{prog: "(1, 2) as $q | def f: . as $x | $x, ($x + 1 | f); 0 | f"},
+	{prog: "def o: def p: 1, (def f: . as $x | $x, ($x + 1 | f); 0 | f); p; o"},
+	{prog: "def o: def p: 1, (0 | while(true; . + 1)); p; o"},
+	{prog: "range(infinite) | [def f: . as $x | if $x < 3 then $x + 1 | f else $x end; 0 | f] | .[0]"},
+	{prog: "try (def f: ., (. + 1 | f); 0 | f) catch ."},
+	{prog: "label $l | def f: . as $x | $x, ($x + 1 | f); 0 | f"},
 	{prog: "def f: input, f; f"},
 	{prog: "def f: input as $x | $x, f; f"},
 	{prog: "def f: {i: .i, a: .a}, (.i += 1 | f); {i: 0, a: 0} | f | .i"},
@@ -680,6 +693,13 @@ var turnForms = []form{
 	{prog: "reduce (range(%M%) %T%) as $i (null; .a.b = $i) | .a.b", want: "M-1"},
 	{prog: "last(path(limit(%M%; repeat(.a %T%)))) | length", want: "1"},
 	{prog: "reduce (tostream %T%) as $e (0; . + 1) - 1", want: "M", input: "flat"},
+	{prog: "[def f: if . < %M% then . + 1 %T% | f else . end; 0 | f] | .[0]", want: "M"},
+	{prog: "first((def f: if . < %M% then . + 1 %T% | f else . end; 0 | f), 1)", want: "M"},
+	{prog: "def o: [def f: . as $x | if $x < %M% then $x + 1 %T% | f else $x end; 0 | f] | .[0]; o", want: "M"},
+	{prog: "def o: def p: (def f: . as $x | if $x < %M% then $x + 1 %T% | f else $x end; 0 | f), 0; first(p); o", want: "M"},
+	{prog: "[0 | until(. >= %M%; . + 1 %T%)] | .[0]", want: "M"},
+	{prog: "[last(range(%M%) %T%)] | .[0]", want: "M-1"},
+	{prog: "(1, 2) as $q | [reduce (range(%M%) %T%) as $x (0; . + 1)] | select($q == 2) | .[0]", want: "M"},
 	// self-ticking sources (the scripted input iterator and the native generator hold %M% values)
 	{prog: "reduce inputs as $x (0; . + 1)", want: "M", mode: "self"},
 	{prog: "last(inputs)", want: "M-1", mode: "self"},
@@ -757,18 +777,28 @@ func TestC20(t *testing.T) {
 	rec.Exhaustive(fmt.Sprintf("fixed-forms(%d stream + %d turn forms x %d magnitudes, %d controls)", len(streamForms), len(turnForms), len(sizes()), len(controlForms)), complete)
 
 	// (R1) generated tail-recursive definitions
-	rec.Rapid(t, "tailrec", rec.Scale(2400, 12000), func(t *rapid.T) {
-		c, classes := genTailRec(t)
-		if msg := judge("tailrec", c, classes...); msg != "" {
-			t.Fatalf("%s", rec.Fail("tailrec", c, "%s", msg))
-		}
-	})
-
+	r1 := func() {
+		rec.Rapid(t, "tailrec", rec.Scale(2400, 12000), func(t *rapid.T) {
+			c, classes := genTailRec(t)
+			if msg := judge("tailrec", c, classes...); msg != "" {
+				t.Fatalf("%s", rec.Fail("tailrec", c, "%s", msg))
+			}
+		})
+	}
 	// (R2) generated compositions of the built-in iteration forms
-	rec.Rapid(t, "compose", rec.Scale(2400, 12000), func(t *rapid.T) {
-		c, classes := genCompose(t)
-		if msg := judge("compose", c, classes...); msg != "" {
-			t.Fatalf("%s", rec.Fail("compose", c, "%s", msg))
-		}
-	})
+	r2 := func() {
+		rec.Rapid(t, "compose", rec.Scale(2400, 12000), func(t *rapid.T) {
+			c, classes := genCompose(t)
+			if msg := judge("compose", c, classes...); msg != "" {
+				t.Fatalf("%s", rec.Fail("compose", c, "%s", msg))
+			}
+		})
+	}
+	if rec.Shard%2 == 0 { // only the order differs (the sample reservoir keeps the first cases of a shard)
+		r1()
+		r2()
+	} else {
+		r2()
+		r1()
+	}
 }
